@@ -6,7 +6,8 @@ from common import frac, close
 ETAS = ['1/2', '1/4', '1/8', '1/16']
 
 
-def table(r, names, n_dims, onehot=False, prefix='d'):
+def table(r, names, n_dims, onehot=False, prefix='d', small=False):
+    """`small`: entries from {-1, -1/2, 0, 1/2, 1} (long event sequences stay contractive for eta <= 1/16)"""
     dims = ['%s%d' % (prefix, i) for i in range(n_dims)]
     rows = []
     order = list(names)
@@ -17,6 +18,9 @@ def table(r, names, n_dims, onehot=False, prefix='d'):
             rows.append(['1' if j == k else '0' for j in range(n_dims)])
         return {'names': order, 'dims': dims, 'rows': rows, 'hot': {n: dims[k] for n, k in zip(order, perm)}}
     for _ in order:
+        if small:
+            rows.append([r.choice(['-1', '-1/2', '0', '1/2', '1']) for _ in range(n_dims)])
+            continue
         rows.append(['%d/%d' % (r.randint(-3, 3), r.choice([1, 1, 2])) for _ in range(n_dims)])
     return {'names': order, 'dims': dims, 'rows': rows}
 
@@ -24,6 +28,9 @@ def table(r, names, n_dims, onehot=False, prefix='d'):
 def model_request(t):
     q = {'op': 'wh', 'flavour': t['flavour'], 'events': [e for p in (t.get('pieces') or [t['events']]) for e in p],
          'policy': t['policy'], 'chunk': t.get('per_job', 10)}
+    if t.get('events_form', 'path') == 'path':
+        # the text format reads an empty outcome field back as the outcome named '' (C07); identity otherwise
+        q['events'] = [[list(c), list(o) if o else ['']] for c, o in q['events']]
     for k in ('eta', 'beta1', 'beta2', 'lambda', 'cue_vectors', 'outcome_vectors', 'init'):
         if t.get(k) is not None:
             q[k] = t[k]
@@ -61,3 +68,71 @@ def compare(impl, model):
     if lo and (lo['systmp'] or lo['giventmp']):
         return 'temporary entries left behind: %r' % lo
     return None
+
+
+# ---------------------------------------------------------------- many chunk files (audit X7)
+def n_chunk_files(n_events, per_file):
+    return -(-n_events // per_file)
+
+
+def lexsorted_events(events, per_file):
+    """the event order that a LEXICOGRAPHIC sort of the chunk file names events_0_<k>.dat would
+    learn (diagnostic only: tells whether a case could see a mis-sorted chunk list)"""
+    chunks = [events[i:i + per_file] for i in range(0, len(events), per_file)]
+    order = sorted(range(len(chunks)), key=str)
+    return [e for k in order for e in chunks[k]]
+
+
+def shrink_events(t, fails, budget=40):
+    """greedy shrink of a failing task: drop events (last first), then tokens, then configuration;
+    `fails(task) -> bool` re-runs both sides"""
+    cur, steps = dict(t), 0
+    changed = True
+    while changed and steps < budget:
+        changed = False
+        for i in reversed(range(len(cur['events']))):
+            if len(cur['events']) <= 1 or steps >= budget:
+                break
+            c = dict(cur, events=cur['events'][:i] + cur['events'][i + 1:])
+            steps += 1
+            if fails(c):
+                cur, changed = c, True
+    for i in range(len(cur['events'])):
+        for side in (0, 1):
+            if len(cur['events'][i][side]) > 1 and steps < budget:
+                e = [list(cur['events'][i][0]), list(cur['events'][i][1])]
+                e[side] = e[side][:1]
+                c = dict(cur, events=cur['events'][:i] + [e] + cur['events'][i + 1:])
+                steps += 1
+                if fails(c):
+                    cur = c
+    for k, v in (('n_jobs', 1), ('per_job', 10)):
+        if cur.get(k, v) != v and steps < budget:
+            c = dict(cur, **{k: v})
+            steps += 1
+            if fails(c):
+                cur = c
+    return cur, steps
+
+
+def python_snippet(t):
+    """self-contained replay of one wh.wh call against the public API"""
+    lines = ['import gzip, numpy as np, xarray as xr', 'from fractions import Fraction as F', 'from pyndl import wh',
+             'events = %r' % (t['events'],),
+             "with gzip.open('events.tab.gz', 'wt') as f:",
+             "    f.write('cues\\toutcomes\\n')",
+             "    for c, o in events: f.write('_'.join(c) + '\\t' + '_'.join(o) + '\\n')",
+             'def tab(t, d0, d1): return xr.DataArray(np.array([[float(F(v)) for v in r] for r in t["rows"]]), dims=(d0, d1), '
+             'coords={d0: t["names"], d1: t["dims"]})']
+    kw = ['method=%r' % t.get('method', 'openmp'), 'n_jobs=%d' % t.get('n_jobs', 2), 'n_outcomes_per_job=%d' % t.get('per_job', 10),
+          'remove_duplicates=%r' % {'error': None, 'dedup': True, 'keep': False}[t['policy']],
+          'events_per_temporary_file=%d' % t.get('per_file', 10000000)]
+    if t.get('cue_vectors'):
+        lines.append("ct = tab(%r, 'cues', 'cue_vector_dimensions')" % ({k: t['cue_vectors'][k] for k in ('names', 'dims', 'rows')},))
+        kw.insert(0, 'cue_vectors=ct')
+    if t.get('outcome_vectors'):
+        lines.append("ot = tab(%r, 'outcomes', 'outcome_vector_dimensions')" % ({k: t['outcome_vectors'][k] for k in ('names', 'dims', 'rows')},))
+        kw.insert(0, 'outcome_vectors=ot')
+    lines.append("w = wh.wh('events.tab.gz', float(F(%r)), %s)" % (t['eta'], ', '.join(kw)))
+    lines.append('print(w)')
+    return '\n'.join(lines)
